@@ -92,6 +92,9 @@ def judgeScale (v : F64.Bits) (binary : Bool) (text : String) : String :=
           else "ok"
         else if x < lo ∧ x ≥ lo * mkRat 1 (10 ^ 8) then
           if p.sigDigits < 3 then "fewer-than-3-digits" else "ok"
+        else if x ≥ hi then
+          -- above the largest prefix: the scale appropriate to the magnitude is still the largest one
+          if p.pfx != (if binary then "Ti" else "T") then "not-largest-prefix" else "ok"
         else "ok"
 
 /-- Verdict on the no-op scaler: the text must read back to the same float and no decimal with
